@@ -248,6 +248,16 @@ func RunC01(e *core.Env) int {
 			c01Judge(rep, c)
 		}
 	}
+	// inputs that ought to be refused (C10's ill-fitting hooks): whichever of them IS accepted must compile
+	if cb, err := NewBatch(e, "badhooks", illFittingHooks()); err == nil {
+		cb.RunTool(e, true)
+		for _, c := range cb.Cases {
+			if c.Run.Exit == 0 {
+				rep.Count("ill_fitting_hooks_accepted_and_judged", 1)
+				c01Judge(rep, c)
+			}
+		}
+	}
 	runBroadBatches(e, rep, "broad", n, 200, func(c *CaseResult) {
 		c01Judge(rep, c)
 		if len(c.TypeErrs) == 0 && c.Out != nil {
